@@ -185,10 +185,27 @@ func (x *Exec) ghostValue(e *Env, name string) (Value, bool) {
 }
 
 func (x *Exec) letType(lc LetClause) types.Type {
+	return letTypeOf(lc, x.Pkg.TypesInfo, x.Fn)
+}
+
+// letTypeIn: type of a ghost of another function's contract (for modular calls).
+func (x *Exec) letTypeIn(lc LetClause, fn *types.Func) types.Type {
+	p := x.U.Pkgs[fn.Pkg().Path()]
+	if p == nil {
+		return nil
+	}
+	_, key := funcKey(fn)
+	fd, _ := findFunc(p, key)
+	if fd == nil || fd.Body == nil {
+		return nil
+	}
+	return letTypeOf(lc, p.TypesInfo, fd)
+}
+
+func letTypeOf(lc LetClause, info *types.Info, fd *ast.FuncDecl) types.Type {
 	// find the callee among the calls of the function
 	var res types.Type
-	info := x.Pkg.TypesInfo
-	ast.Inspect(x.Fn.Body, func(n ast.Node) bool {
+	ast.Inspect(fd.Body, func(n ast.Node) bool {
 		c, ok := n.(*ast.CallExpr)
 		if !ok || res != nil {
 			return true
